@@ -290,6 +290,8 @@ def _gen_plan(family, rng, tier):
     fixed_layout = family == 'c20-fixed'
     if fixed_layout:
         sub = rng.choice(['c20', 'c20-redef'])
+    if family == 'c12-def':
+        sub = rng.choice(['c20', 'c20-redef'])
     vs = rng.sample(versions(), rng.randint(1, 2))
     clash = rng.random() < 0.15         # sessions in which a bundled local table defines the same ids
     if clash:
@@ -297,7 +299,7 @@ def _gen_plan(family, rng, tier):
     reg_b, reg_d, ncep_forms = {}, {}, set()
     items = []
     cached = set()
-    coe = rng.random() < 0.4
+    coe = rng.random() < 0.4 or family == 'c12-def'
     if rng.random() < 0.5:
         v = rng.choice(vs)
         it = gen_data_message(rng, v, {}, {}, set(), use_defs=False)
@@ -439,6 +441,10 @@ def _gen_plan(family, rng, tier):
                                                    _reach(it['top'], reg_d) | set(it['top'])))
             it['after_cached'] = False
             items.append(it)
+    if family == 'c12-def':
+        items = _insert_damaged_definitions(rng, items, vs, used_ids)
+        if items is None:
+            return None
     seps = [streamsim.gen_separator(rng)[1].hex() if rng.random() < 0.5 else '' for _ in range(len(items) + 1)]
     knobs = {'coe': coe, 'compiled': rng.choice([1, 2, 8, 8]) if family == 'c08-def' else None,
              'filecheck': family != 'c08-def' and rng.random() < 0.25, 'sub': sub + ('-fixed' if fixed_layout else ''),
@@ -446,6 +452,79 @@ def _gen_plan(family, rng, tier):
              # header first and decodes the message a second time)
              'filter': rng.choice([None] * 7 + ['True', '${%length} > 0', '${%n_subsets} >= 0 and ${%edition} > 1'])}
     return {'knobs': knobs, 'items': items, 'seps': seps}
+
+
+def _insert_damaged_definitions(rng, items, vs, used_ids):
+    """c12-def: DAMAGED definition messages (stop signature overwritten, section 4 length changed - damage
+    that strikes after the data have been read) between the messages of a session. Isolation demands that
+    such a message is skipped and leaves nothing behind: (1) one that re-defines the ids of an earlier,
+    intact definition - the messages that follow must still be decoded by the intact one; (2) one that
+    defines brand-new ids, followed by an 'orphan' data message over those ids - which must fail like it
+    does without the damaged message (nobody defined its descriptors)."""
+    defs = [i for i, it in enumerate(items) if it['kind'] == 'def' and it['b_full']]
+    out = list(items)
+    n_ins = 0
+    for _ in range(rng.choice([1, 1, 2])):
+        how = rng.choice(['redefine', 'redefine', 'orphan']) if defs else 'orphan'
+        if how == 'redefine':
+            di = rng.choice(defs)
+            src = items[di]
+            b_entries = []
+            for e in src['b_full']:
+                for _try in range(10):
+                    ne = gen_b_entry(rng, e[0])
+                    if tuple(ne[2:]) != tuple(e[2:]):
+                        break
+                b_entries.append(ne)
+            d_entries = []
+            own = dict((e[0], None) for e in b_entries)
+            for d in src['d_full']:
+                if rng.random() < 0.5 and d[0] not in src.get('forms_added', []):
+                    d_entries.append((d[0], d[1], [rng.choice(sorted(own)) for _ in range(rng.randint(1, 3))]))
+            pos_min = out.index(src) + 1
+        else:
+            b_entries = []
+            for _ in range(rng.randint(1, 3)):
+                for _try in range(20):
+                    eid = rng.randint(48, 63) * 1000 + rng.randint(0, 255)
+                    if eid not in used_ids:
+                        break
+                used_ids.add(eid)
+                b_entries.append(gen_b_entry(rng, eid))
+            d_entries = []
+            pos_min = rng.randint(0, len(out))
+        dv = rng.choice(vs + [13])
+        msg, _t = write_definition(rng, dv, rng.choice([3, 3, 4]), b_entries, d_entries,
+                                   [('%03d' % rng.randint(200, 255), 'VERIF TABLE A LINE 1', 'LINE 2')])
+        w = bufrgen.walk(msg)
+        l4 = w['sections'][4][1]
+        fault = rng.choice([{'kind': 'stopsig', 'bytes': rng.choice(['37373738', '00000000', '37373700'])},
+                            {'kind': 'len', 'section': 4, 'delta': -rng.choice([1, 2, 3, 4])},
+                            {'kind': 'len', 'section': 4, 'delta': rng.choice([1, 2, 3, 4, 8])}])
+        if fault['kind'] == 'len' and l4 + fault['delta'] < 4:
+            fault = {'kind': 'stopsig', 'bytes': '37373738'}
+        bad = bufrgen.apply_fault(msg, fault)
+        j = rng.randint(pos_min, len(out))
+        out.insert(j, {'kind': 'baddef', 'hex': bad.hex(), 'version': dv, 'fault': fault, 'how': how,
+                       'b': [[e[0], e[2], e[3], e[4], e[5]] for e in b_entries]})
+        n_ins += 1
+        if how == 'orphan':
+            reg = dict((e[0], (e[1].rstrip(), e[2], e[3], e[4], e[5])) for e in b_entries)
+            it = gen_data_message(rng, rng.choice(vs), reg, {}, set())
+            if not any(int(k) in reg for k in it['truth']['infos']):
+                continue
+            it['kind'] = 'orphan'
+            out.insert(rng.randint(j + 1, len(out)), it)
+    return out if n_ins else None
+
+
+def without_damaged_definitions(plan):
+    """the same session with the damaged definition messages (and their separators) removed"""
+    keep = [i for i, it in enumerate(plan['items']) if it['kind'] != 'baddef']
+    p = dict(plan)
+    p['items'] = [plan['items'][i] for i in keep]
+    p['seps'] = [plan['seps'][i] for i in keep] + [plan['seps'][len(plan['items'])]]
+    return p
 
 
 # ----------------------------------------------------------------------------
@@ -471,12 +550,17 @@ def layout(plan):
         good = False
         for s, it in zip(starts, items):
             n = len(it['hex']) // 2
-            if i == s or (it['kind'] != 'bad' and s < i <= s + n - 4):
+            if i == s or (it['kind'] not in ('bad', 'baddef') and s < i <= s + n - 4):
                 good = True
         if not good:
             ok = False
             break
         i = stream.find(b'BUFR', i + 1)
+    for s0, it in zip(starts, items):
+        if it['kind'] == 'baddef' and it['fault']['kind'] == 'len':
+            w = bufrgen.walk(stream, s0)
+            if w is not None and w['end'] is not None and stream[w['end']:w['end'] + 4] == b'7777':
+                ok = False      # the length damage still lands on a stop signature: not surely detectable
     return {'stream': stream, 'starts': starts, 'ok': ok}
 
 
@@ -562,6 +646,8 @@ def execute(plan):
                'filter': kn.get('filter')}
         if plan['family'] == 'c08-def':
             tr['ref'] = core.run_in_child(_scan, dict(arg, compiled=None), 300)
+        if plan['family'] == 'c12-def':
+            tr['ref'] = core.run_in_child(_scan, dict(arg, stream=layout(without_damaged_definitions(plan))['stream'].hex()), 300)
         tr.update(_scan(arg))
     finally:
         if tmp:
@@ -630,6 +716,19 @@ def oracle(plan, tr):
                         'sub': kn.get('sub'), 'raise_site': (tr['exc'] or {}).get('site')})
         return out
 
+    if fam == 'c12-def':
+        ref = tr['ref']
+        if ref.get('budget_exceeded') or ref['exc'] is not None:
+            return out          # the session without the damaged definitions does not run through: inconclusive
+        if tr['exc'] is not None:
+            return [{'property': 'C12', 'clause': 'C12.c', 'fault_kind': 'definition-message', 'exc_type': tr['exc']['type'],
+                     'raise_site': tr['exc']['site'], 'lib': tr['exc']['lib']}]
+        a = [(d['b'], d['n'], _h(json.dumps([d['vals'], d['ids'], d['attrs']]))) for d in tr['deliveries']]
+        b = [(d['b'], d['n'], _h(json.dumps([d['vals'], d['ids'], d['attrs']]))) for d in ref['deliveries']]
+        if a != b:
+            what = 'count' if len(a) != len(b) else ('bytes' if [x[:2] for x in a] != [x[:2] for x in b] else 'content')
+            out.append({'property': 'C12', 'clause': 'C12.c-damaged-definition-isolated', 'what': what})
+        return out
     base = {'property': 'C20', 'sub': kn.get('sub')}
     if tr['exc'] is not None:
         # an exception that escapes while the scanner is on a damaged message is C12's business
@@ -647,7 +746,7 @@ def oracle(plan, tr):
     slots = []
     for it in items:
         dg = (_h(bytes.fromhex(it['hex'])), len(it['hex']) // 2)
-        slots.append((dg, 'no' if it['kind'] == 'bad' else 'req'))
+        slots.append((dg, 'no' if it['kind'] in ('bad', 'baddef', 'orphan') else 'req'))
     deliv = [(d['b'], d['n']) for d in tr['deliveries']]
     if not streamsim._match(deliv, slots):
         # which kind of message went missing?
